@@ -30,14 +30,21 @@ ap.add_argument("--tags", default="")
 ap.add_argument("--needs", default="")
 ap.add_argument("--tier", default="quick")
 ap.add_argument("--skip-demo", action="store_true")
+ap.add_argument("--round", type=int, default=1)
 a = ap.parse_args()
 
-wt = "/tmp/wt-" + a.id
-seed = "/tmp/seed-%s/%s" % (a.id, a.var)
+if a.round == 1:
+    wt = "/tmp/wt-" + a.id
+    seed = "/tmp/seed-%s/%s" % (a.id, a.var)
+    outvar = a.var
+else:
+    wt = "/tmp/wt%d-%s" % (a.round, a.id)
+    seed = "/tmp/seed%d-%s/%s" % (a.round, a.id, a.var)
+    outvar = chr(ord(a.var) + 2 * (a.round - 1))  # round 2: a->c, b->d
 patch = os.path.join(seed, "patch.diff")
-out = os.path.join(V, "seeded", "%s-%s" % (a.id, a.var))
+out = os.path.join(V, "seeded", "%s-%s" % (a.id, outvar))
 os.makedirs(out, exist_ok=True)
-meta = {"property": a.id, "variant": a.var, "checks": {}, "ran": []}
+meta = {"property": a.id, "variant": outvar, "round": a.round, "checks": {}, "ran": []}
 
 def clean_wt():
     sh("git checkout -- . && git clean -fdq", wt)
